@@ -88,6 +88,19 @@ def run(ctx):
     ctx.ob('C04.r1', 'Storage::rollback_to_block', 'script block numbers are rewound in the rollback batch', 'FILTER_SCRIPTS_KEY' in ro['meta_put'])
     ctx.ob('C04.r1', 'Storage::rollback_to_block', 'filter progress is rewound in the rollback batch', 'MIN_FILTERED_BLOCK_NUMBER' in ro['meta_put'])
 
+    # (F75) the entries of EVERY registered script are rolled back: the scan of a script's records is not conditional on its progress
+    RBb = ctx.body('Storage::rollback_to_block')
+    rcfg = P.cfg(RBb)
+    scans = [b for b, k, t in P.call_keys(RBb) if re.match(r'^<DB as Iterate', k) or k.endswith('DBIterator>::take_while') or k.endswith('Iterator>::take_while')]
+    cmps = [c for c in ctx.cmp_stmts(RBb) if c[2] in ('Ge', 'Lt', 'Le', 'Gt')]
+    rdu1 = DefUse(RBb)
+    prog_cmp = [c for c in cmps if any(any(o[0] == 'call' and o[1].endswith('Storage::get_filter_scripts') for o in rdu1.origins(a, stop_at_calls=False)) for a in (c[3], c[4]))
+                and any(any(o[0] == 'param' for o in rdu1.origins(a)) for a in (c[3], c[4]))]
+    guarded_scan = any(rcfg.dominates(c[0], sb) for c in prog_cmp for sb in scans)
+    ctx.ob('C04.r1', RBb.name, 'the records of every registered script are rolled back, whatever its block number is (a script set back by the user still has later entries)',
+           bool(scans) and not guarded_scan, scans=len(scans),
+           failing_history=None if (scans and not guarded_scan) else 'script synced to 30, set_scripts(partial) sets it back to 5 (rescan); fork at 20 during the rescan: rollback_to_block(21) skips the '
+           'script (5 < 21) and the cells / transactions of the abandoned blocks 21..30 stay in the index')
     # r2 ---------------------------------------------------------------------------------
     F = ctx.body(CPS)
     fm = lambda k, t: k.endswith('Iterator>::find_map')
@@ -158,6 +171,14 @@ def run(ctx):
     ctx.ob('C04.r2', SLS.name, 'the child shortcut replaces the stored tip only if the child extends it (stored tip == proved parent, or the child is not heavier)', tie,
            failing_history=None if tie else 'peers A and B proved at 22; A announces A23 (stored tip A23, indexed); B announces B23 then B24: the child path stores B24 '
            'over A23 without rollback')
+    # (F76) the index is rolled back to the fork point: the target does not depend on a kept record
+    fdu3 = DefUse(F)
+    for b, sp, lbl in [m for m in muts if m[2] == 'Storage::rollback_to_block']:
+        t = F.blocks[b].term
+        from_rec = any(o[0] == 'call' and o[1].endswith('Storage::get_latest_matched_blocks') for o in fdu3.origins(t.args[1], stop_at_calls=False))
+        ctx.ob('C04.r2', F.name, 'the rollback target on the fork branch is the fork point + 1 (not the start of a kept matched-blocks record)', not from_rec, at=sp,
+               failing_history=None if not from_rec else 'S1 synced to 28 with cells in 12, 14, 16; lagging S2 has the pending record (10, ..); fork at 29: rollback to 11 deletes S1\'s valid '
+               'entries, the kept record (matched without S1) then raises S1 to its end: the blocks in between are skipped')
     # (F53) a record kept across the fork ends at the fork point: its count is recomputed from the fork point, never carried over
     # (update_block_number(start + count - 1) at its completion must not pass the fork point)
     for b, sp, lbl in [m for m in muts if m[2] == 'Storage::add_matched_blocks']:
@@ -212,9 +233,14 @@ def run(ctx):
         from engine.locks import Locks as _L
         Lk = _L(P)
         okm = all(bool(Lk.held_at(BP, b, 'L_mb', 'write')) for b, _ in rm + rw) and \
-            all(rb not in bcfg.reachable_from(bcfg.succ[mb]) for mb, _ in rm for rb, _ in rw)
+            all(any(mb in bcfg.reachable_from(bcfg.succ[rb]) for mb, _ in rm) for rb, _ in rw)   # the rewind is followed by the removal(s): all records are dropped in a loop (F74)
         bdu = DefUse(BP)
         okm = okm and all(any(o[0] == 'call' and o[1].endswith('Storage::get_earliest_matched_blocks') for o in bdu.origins(t.args[1], stop_at_calls=False)) for _, t in rm)
+    ge = P.call_sites(BP, 'Storage::get_earliest_matched_blocks')
+    loops = bool(rm) and bool(ge) and all(any(gb in bcfg.reachable_from(bcfg.succ[mb]) for gb, _ in ge) for mb, _ in rm)
+    ctx.ob('C04.r6', BP.name, 'ALL pending matched-blocks records are dropped on a missing matched block (the removal loops over the earliest record)', loops,
+           failing_history=None if loops else 'records (1,30,[b20]) and (31,10,[b35]) pending; `missing` for b20 removes only the first: the second is recovered and finished, the scripts '
+           'are raised to 40 and block 20, filtered again, is skipped: its cell is lost')
     ctx.ob('C04.r6', BP.name, 'a matched block reported missing discards its record and rewinds the filter progress before it (under the matched-blocks lock, rewind first)',
            okm, removes=len(rm), rewinds=len(rw),
            failing_history=None if okm else 'record (16, 9, [A20]) kept across a fork at 19: every GetBlocksProof for A20 is answered `missing`, the answer is ignored for '
